@@ -314,7 +314,11 @@ def showAmbientG (fx : Fixes) (root : String) (pas : List PA) (w : Workload) (po
   let d := if ports.isEmpty then "-" else
     ",".intercalate (ports.map (fun p =>
       s!"{p}:{if deniedG fx root pas w false p then 1 else 0}{if deniedG fx root pas w true p then 1 else 0}"))
-  s!"F={f} K={ks} P={pol} D={d}"
+  -- S: every referenced policy is among what istiod serves (also when requested by its key)
+  let served := match k.wl with
+    | none => true
+    | some p => (derivedPolicyG fx root pas p).isSome
+  s!"F={f} K={ks} P={pol} D={d} S={if served then 1 else 0}"
 
 def showAmbient := showAmbientG Fixes.all
 
